@@ -23,7 +23,8 @@ From JV Require Import Lib.Base.
 
 (* ---- programs --------------------------------------------------------------------------- *)
 Inductive dflt := DReq | DVal (k : N) (z : Z).   (* k: kind of the literal (0 int, 1 float, 2 str) *)
-Record sparam := { sp_name : str; sp_ty : N; sp_def : dflt }.
+Record sparam := { sp_name : str; sp_ty : N; sp_def : dflt;
+                   sp_kwonly : bool }.   (* declared after a bare `*`; keyword-only parameters come last *)
 Inductive callee := KSuper | KFunc (i : nat) | KClass (i : nat) | KMeth (m : nat)
                   | KSuperOf (c : nat).   (* super(C<c>, self).__init__(..): continue after C<c> in the MRO *)
 Inductive stmt :=
@@ -216,7 +217,10 @@ Definition of_dflt (d : dflt) : rdflt := match d with DReq => RReq | DVal k z =>
 
 Definition own_rparams (f : fn) : list rparam :=
   map (fun p => {| r_name := sp_name p; r_ann := [sp_ty p]; r_def := of_dflt (sp_def p);
-                   r_kwonly := false; r_otup := false |}) (f_params f).
+                   r_kwonly := sp_kwonly p; r_otup := false |}) (f_params f).
+
+(* how many arguments the signature can take positionally *)
+Definition npos_cap (f : fn) : nat := length (filter (fun p => negb (sp_kwonly p)) (f_params f)).
 
 Definition pg_param (n : str) (k : N) (z : Z) : rparam :=
   {| r_name := n; r_ann := []; r_def := RVal k z; r_kwonly := true; r_otup := false |}.
